@@ -23,7 +23,7 @@ const basketPkg = "x/ecocredit/v3/basket"
 
 type fmtSpec struct {
 	pkg, fn, regexVar string
-	roles            map[int]string // parameter index → language source (regex string variable in pkg or basePkg)
+	roles             map[int]string // parameter index → language source (regex string variable in pkg or basePkg)
 }
 
 func varString(p *Program, pkgSuffix, name string) (string, bool) {
